@@ -12,6 +12,7 @@ claimed["C06"] = ("every encodable kind built through its constructors with symb
 claimed["C01"] = ("every controller-originated message kind built through the API with symbolic field values (all 256 flow-mod commands, all 65536 group-mod commands), lists of <= 2 elements, payload <= 8/16 B: version byte, type code, header length == bytes == Len() decided by SMT; bundle-add wrapping each kind checks the embedded frame as well", "4 C01")
 claimed["C13"] = ("every encodable kind (44 match fields, 27 actions, instructions, buckets, learn specs, 21 message kinds, bundle/vendor wrappers, 16 packet-header kinds, IPv4 with unset IHL) under every sequence of <= 3 (quick) / 4 (thorough) Len/MarshalBinary calls: all sizes agree, all encodings agree byte for byte, size == len(encoding), decided by SMT over all field values", "4 C13")
 claimed["C09"] = ("every packet-header kind built well-formed with symbolic field values (all values of every packed 8/16/32-bit group at once): encode, decode, compare fields, re-encode, size == bytes consumed; packed groups compared with the RFC bit layouts; payload decoder chosen by ethertype (tagged and untagged forms of the same symbolic frame), IPv4 protocol and IPv6 next-header chains (8 chain orders quick / 16 thorough); DHCP and LLDP TLV round trips; payload <= 8/16 B, <= 2/3 options, sources, records; header-extension lengths 0,1,31,32(,255)", "4 C09")
+claimed["C05"] = ("every two-way kind built through its constructors with symbolic fields (44 match-field kinds, 27 action kinds incl. nested conntrack / learn / nat, 4 instruction kinds, buckets, matches, learn specs, 23 top-level message kinds through Parse, group-mod / packet-out / port-mod / multipart requests through their decoders): encode, decode with 0 or 8 arbitrary trailing bytes, decoded extent == encoded size, re-encoding == bytes, exported fields equal (after the documented normalisations), decided by SMT over all field values", "4 C05")
 pending = {}
 allp = [json.loads(l)["id"] for l in open("/verif/properties.jsonl")]
 TRUST = "go/ssa lowering, gc compiler, Go runtime, SMT solvers (z3 4.8.12 decides; z3 5.1.0 and cvc5 1.0 cross-check sampled verdict queries), the environment stubs listed in each evidence file; nothing outside the per-harness bounds in DESIGN.md §4"
